@@ -3,20 +3,16 @@ From Coq Require Import NArith Lia.
 
 Lemma fkey_eqb_spec a b : fkey_eqb a b = true <-> a = b.
 Proof.
-  destruct a as [n [[l r]|]], b as [n' [[l' r']|]]; unfold fkey_eqb; cbn [fst snd]; rewrite ?andb_true_iff, ?Nat.eqb_eq, ?N.eqb_eq.
-  - split; [intros [-> [-> ->]]; reflexivity | intros H; inversion H; auto].
-  - split; [intros [_ H]; discriminate | intros H; inversion H].
-  - split; [intros [_ H]; discriminate | intros H; inversion H].
-  - split; [intros [-> _]; reflexivity | intros H; inversion H; auto].
+  destruct a as [n [[[l r] [x|]]|]], b as [n' [[[l' r'] [x'|]]|]]; unfold fkey_eqb; cbn [fst snd]; rewrite ?andb_true_iff, ?Nat.eqb_eq, ?N.eqb_eq;
+    (split; [intros H; repeat match goal with H : _ /\ _ |- _ => destruct H end; subst; try discriminate; reflexivity | intros H; inversion H; subst; auto]).
 Qed.
 Lemma funckey_eqb_spec a b : funckey_eqb a b = true <-> a = b.
 Proof.
-  destruct a as [n [l|]], b as [n' [l'|]]; unfold funckey_eqb; cbn [fst snd]; rewrite ?andb_true_iff, ?Nat.eqb_eq.
-  - split; [intros [-> ->]; reflexivity | intros H; inversion H; auto].
-  - split; [intros [_ H]; discriminate | intros H; inversion H].
-  - split; [intros [_ H]; discriminate | intros H; inversion H].
-  - split; [intros [-> _]; reflexivity | intros H; inversion H; auto].
+  destruct a as [n [l|]], b as [n' [l'|]]; unfold funckey_eqb; cbn [fst snd]; rewrite ?andb_true_iff, ?Nat.eqb_eq;
+    (split; [intros H; repeat match goal with H : _ /\ _ |- _ => destruct H end; subst; try discriminate; reflexivity | intros H; inversion H; subst; auto]).
 Qed.
+Lemma ns_key_eqb_spec a b : ns_key_eqb a b = true <-> a = b.
+Proof. destruct a, b. unfold ns_key_eqb. cbn [fst snd]. rewrite andb_true_iff, Nat.eqb_eq, N.eqb_eq. split; [intros [-> ->]; reflexivity | intros H; inversion H; auto]. Qed.
 Lemma nat_eqb_spec a b : Nat.eqb a b = true <-> a = b.
 Proof. apply Nat.eqb_eq. Qed.
 Lemma n_eqb_spec a b : N.eqb a b = true <-> a = b.
@@ -25,101 +21,174 @@ Proof. apply N.eqb_eq. Qed.
 Lemma index_of_lt {K} (eqb : K -> K -> bool) (H : forall a b, eqb a b = true <-> a = b) k l i : index_of eqb k l = Some i -> i < length l.
 Proof. intros E. apply nth_error_Some. rewrite (index_of_some eqb H _ _ _ E). discriminate. Qed.
 
-(* growing the string table keeps everything well-formed *)
+(* t' extends t: every table only grows *)
+Record grows (t t' : ttab) : Prop := mkGrows {
+  g_strings : length (tt_strings t) <= length (tt_strings t');
+  g_res : length (tt_res_lib t) <= length (tt_res_lib t');
+  g_funcs : length (tt_funcs t) <= length (tt_funcs t');
+  g_ns : length (tt_ns t) <= length (tt_ns t') }.
+Lemma grows_refl t : grows t t.
+Proof. constructor; lia. Qed.
+Lemma grows_trans a b c : grows a b -> grows b c -> grows a c.
+Proof. intros [A1 A2 A3 A4] [B1 B2 B3 B4]. constructor; lia. Qed.
+
 Lemma wf_more_strings n t ss : tt_wf n t -> length (tt_strings t) <= length ss ->
-  tt_wf n (mkTT ss (tt_res_lib t) (tt_res_name t) (tt_funcs t) (tt_func_res t) (tt_frames t) (tt_frame_func t)).
+  tt_wf n (mkTT ss (tt_res_lib t) (tt_res_name t) (tt_funcs t) (tt_func_res t) (tt_frames t) (tt_frame_func t) (tt_ns t) (tt_ns_name t)).
 Proof.
-  intros [A [B [C [D [E [F [G [H I]]]]]]]] L. unfold tt_wf. cbn [tt_strings tt_res_lib tt_res_name tt_funcs tt_func_res tt_frames tt_frame_func].
-  repeat split; auto; intros x Hx; [specialize (E _ Hx) | specialize (F _ Hx) | specialize (H _ Hx)]; lia.
+  intros W L. constructor; cbn [tt_strings tt_res_lib tt_res_name tt_funcs tt_func_res tt_frames tt_frame_func tt_ns tt_ns_name].
+  - exact (w_res_len n t W).
+  - exact (w_func_len n t W).
+  - exact (w_frame_len n t W).
+  - exact (w_ns_len n t W).
+  - exact (w_res_lib n t W).
+  - intros x Hx. pose proof (w_res_name n t W x Hx). lia.
+  - intros x Hx. pose proof (w_func_name n t W x Hx). lia.
+  - exact (w_func_res n t W).
+  - intros x Hx. pose proof (w_frame_name n t W x Hx). lia.
+  - exact (w_frame_func n t W).
+  - exact (w_ns_lib n t W).
+  - intros x Hx. pose proof (w_ns_name n t W x Hx). lia.
+  - exact (w_frame_ns n t W).
 Qed.
 
 Lemma intern_string_wf n t s : tt_wf n t ->
-  tt_wf n (snd (intern_string t s)) /\ fst (intern_string t s) < length (tt_strings (snd (intern_string t s))) /\
-  length (tt_strings t) <= length (tt_strings (snd (intern_string t s))) /\
-  tt_res_lib (snd (intern_string t s)) = tt_res_lib t /\ tt_funcs (snd (intern_string t s)) = tt_funcs t /\ tt_frames (snd (intern_string t s)) = tt_frames t.
+  tt_wf n (snd (intern_string t s)) /\ fst (intern_string t s) < length (tt_strings (snd (intern_string t s))) /\ grows t (snd (intern_string t s)) /\
+  tt_frames (snd (intern_string t s)) = tt_frames t /\ tt_ns (snd (intern_string t s)) = tt_ns t /\ tt_ns_name (snd (intern_string t s)) = tt_ns_name t /\
+  tt_res_lib (snd (intern_string t s)) = tt_res_lib t /\ tt_funcs (snd (intern_string t s)) = tt_funcs t.
 Proof.
-  intros W. unfold intern_string. destruct (intern N.eqb (tt_strings t) s) as [i l] eqn:E. cbn [fst snd tt_strings tt_res_lib tt_funcs tt_frames].
+  intros W. unfold intern_string. destruct (intern N.eqb (tt_strings t) s) as [i l] eqn:E. cbn [fst snd tt_strings tt_frames tt_ns tt_ns_name tt_res_lib tt_funcs].
   destruct (intern_spec N.eqb n_eqb_spec _ _ _ _ E) as [H1 [[ext H2] _]].
   assert (L : length (tt_strings t) <= length l) by (subst l; rewrite app_length; lia).
-  split; [apply wf_more_strings; assumption|]. split; [apply nth_error_Some; congruence|]. auto.
+  split; [apply wf_more_strings; assumption|]. split; [apply nth_error_Some; congruence|]. split; [constructor; cbn; lia|]. repeat split; reflexivity.
 Qed.
 
 Lemma resource_for_lib_wf n t lib libname : tt_wf n t -> lib < n ->
   tt_wf n (snd (resource_for_lib t lib libname)) /\ fst (resource_for_lib t lib libname) < length (tt_res_lib (snd (resource_for_lib t lib libname))) /\
-  length (tt_strings t) <= length (tt_strings (snd (resource_for_lib t lib libname))) /\
-  tt_funcs (snd (resource_for_lib t lib libname)) = tt_funcs t /\ tt_frames (snd (resource_for_lib t lib libname)) = tt_frames t /\
-  length (tt_res_lib t) <= length (tt_res_lib (snd (resource_for_lib t lib libname))).
+  grows t (snd (resource_for_lib t lib libname)) /\ tt_frames (snd (resource_for_lib t lib libname)) = tt_frames t /\
+  tt_funcs (snd (resource_for_lib t lib libname)) = tt_funcs t /\ tt_ns (snd (resource_for_lib t lib libname)) = tt_ns t.
 Proof.
   intros W Hl. unfold resource_for_lib. destruct (index_of Nat.eqb lib (tt_res_lib t)) as [r|] eqn:E.
-  - cbn [fst snd]. split; [exact W|]. split; [eapply index_of_lt; [apply nat_eqb_spec | exact E]|]. auto.
+  - cbn [fst snd]. split; [exact W|]. split; [eapply index_of_lt; [apply nat_eqb_spec | exact E]|]. split; [apply grows_refl | auto].
   - destruct (intern_string t libname) as [nm t1] eqn:E1.
-    pose proof (intern_string_wf n t libname W) as [W1 [I1 [L1 [R1 [F1 Fr1]]]]]. rewrite E1 in *. cbn [fst snd] in *.
-    cbn [fst snd tt_strings tt_res_lib tt_funcs tt_frames].
-    split; [|split; [rewrite app_length; cbn; lia | split; [exact L1 | split; [exact F1 | split; [exact Fr1 | rewrite R1, app_length; lia]]]]].
-    destruct W1 as [A [B [C [D [Ee [F [G [H I]]]]]]]]. unfold tt_wf. cbn [tt_strings tt_res_lib tt_res_name tt_funcs tt_func_res tt_frames tt_frame_func].
-    repeat split; auto.
-    + rewrite !app_length. cbn. lia.
-    + intros l Hin. apply in_app_or in Hin. destruct Hin as [Hin|[<-|[]]]; auto.
-    + intros x Hin. apply in_app_or in Hin. destruct Hin as [Hin|[<-|[]]]; auto.
-    + intros r Hin. specialize (G _ Hin). rewrite app_length. lia.
+    pose proof (intern_string_wf n t libname W) as [W1 [I1 [G1 [Fr1 [Ns1 [Nn1 [R1 F1]]]]]]]. rewrite E1 in *. cbn [fst snd] in *.
+    cbn [fst snd tt_res_lib tt_frames tt_funcs tt_ns].
+    split; [|split; [rewrite app_length; cbn; lia | split; [destruct G1; constructor; cbn [tt_strings tt_res_lib tt_funcs tt_ns]; rewrite ?app_length; lia | auto]]].
+    constructor; cbn [tt_strings tt_res_lib tt_res_name tt_funcs tt_func_res tt_frames tt_frame_func tt_ns tt_ns_name].
+    + rewrite !app_length, (w_res_len n t1 W1). reflexivity.
+    + exact (w_func_len n t1 W1).
+    + exact (w_frame_len n t1 W1).
+    + exact (w_ns_len n t1 W1).
+    + intros l Hin. apply in_app_or in Hin. destruct Hin as [Hin|[<-|[]]]; [exact (w_res_lib n t1 W1 l Hin) | exact Hl].
+    + intros x Hin. apply in_app_or in Hin. destruct Hin as [Hin|[<-|[]]]; [exact (w_res_name n t1 W1 x Hin) | exact I1].
+    + exact (w_func_name n t1 W1).
+    + intros r Hin. pose proof (w_func_res n t1 W1 r Hin). rewrite app_length. lia.
+    + exact (w_frame_name n t1 W1).
+    + exact (w_frame_func n t1 W1).
+    + exact (w_ns_lib n t1 W1).
+    + exact (w_ns_name n t1 W1).
+    + exact (w_frame_ns n t1 W1).
 Qed.
 
 Lemma func_for_wf n t k libname : tt_wf n t -> fst k < length (tt_strings t) -> (forall l, snd k = Some l -> l < n) ->
   tt_wf n (snd (func_for t k libname)) /\ fst (func_for t k libname) < length (tt_funcs (snd (func_for t k libname))) /\
-  length (tt_strings t) <= length (tt_strings (snd (func_for t k libname))) /\ tt_frames (snd (func_for t k libname)) = tt_frames t /\
-  length (tt_funcs t) <= length (tt_funcs (snd (func_for t k libname))).
+  grows t (snd (func_for t k libname)) /\ tt_frames (snd (func_for t k libname)) = tt_frames t /\ tt_ns (snd (func_for t k libname)) = tt_ns t.
 Proof.
   intros W Hk Hl. unfold func_for. destruct (index_of funckey_eqb k (tt_funcs t)) as [i|] eqn:E.
-  - cbn [fst snd]. split; [exact W|]. split; [eapply index_of_lt; [apply funckey_eqb_spec | exact E]|]. auto.
-  - destruct k as [nm [lib|]]; cbn [fst snd] in *.
-    + destruct (resource_for_lib t lib libname) as [r t1] eqn:E1.
-      pose proof (resource_for_lib_wf n t lib libname W (Hl lib eq_refl)) as [W1 [I1 [L1 [F1 [Fr1 R1]]]]]. rewrite E1 in *. cbn [fst snd] in *.
-      cbn [fst snd tt_strings tt_funcs tt_frames].
-      split; [|split; [rewrite app_length; cbn; lia | split; [exact L1 | split; [exact Fr1 | rewrite F1, app_length; lia]]]].
-      destruct W1 as [A [B [C [D [Ee [F [G [H I]]]]]]]]. unfold tt_wf. cbn [tt_strings tt_res_lib tt_res_name tt_funcs tt_func_res tt_frames tt_frame_func].
-      repeat split; auto.
-      * rewrite !app_length. cbn. lia.
-      * intros x Hin. apply in_app_or in Hin. destruct Hin as [Hin|[<-|[]]]; auto. cbn. lia.
-      * intros x Hin. apply in_app_or in Hin. destruct Hin as [Hin|[Hx|[]]]; auto. inversion Hx; subst. exact I1.
-      * intros f Hin. specialize (I _ Hin). rewrite app_length. lia.
-    + cbn [fst snd tt_strings tt_funcs tt_frames].
-      split; [|split; [rewrite app_length; cbn; lia | split; [lia | split; [reflexivity | rewrite app_length; lia]]]].
-      destruct W as [A [B [C [D [Ee [F [G [H I]]]]]]]]. unfold tt_wf. cbn [tt_strings tt_res_lib tt_res_name tt_funcs tt_func_res tt_frames tt_frame_func].
-      repeat split; auto.
-      * rewrite !app_length. cbn. lia.
-      * intros x Hin. apply in_app_or in Hin. destruct Hin as [Hin|[<-|[]]]; auto.
-      * intros x Hin. apply in_app_or in Hin. destruct Hin as [Hin|[Hx|[]]]; auto. discriminate.
-      * intros f Hin. specialize (I _ Hin). rewrite app_length. lia.
+  - cbn [fst snd]. split; [exact W|]. split; [eapply index_of_lt; [apply funckey_eqb_spec | exact E]|]. split; [apply grows_refl | auto].
+  - assert (Step : exists res t1, (match snd k with Some lib => let '(r, t') := resource_for_lib t lib libname in (Some r, t') | None => (None, t) end) = (res, t1) /\
+                   tt_wf n t1 /\ grows t t1 /\ tt_frames t1 = tt_frames t /\ tt_funcs t1 = tt_funcs t /\ tt_ns t1 = tt_ns t /\
+                   (forall r, res = Some r -> r < length (tt_res_lib t1))).
+    { destruct (snd k) as [lib|] eqn:Ek.
+      - destruct (resource_for_lib t lib libname) as [r t1] eqn:E1.
+        pose proof (resource_for_lib_wf n t lib libname W (Hl lib eq_refl)) as [W1 [I1 [G1 [Fr1 [F1 Ns1]]]]]. rewrite E1 in *. cbn [fst snd] in *.
+        exists (Some r), t1. refine (conj eq_refl (conj W1 (conj G1 (conj Fr1 (conj F1 (conj Ns1 _)))))). intros r0 Hr; inversion Hr; subst; exact I1.
+      - exists None, t. refine (conj eq_refl (conj W (conj (grows_refl t) (conj eq_refl (conj eq_refl (conj eq_refl _)))))). intros r Hr; discriminate. }
+    destruct Step as [res [t1 [Es [W1 [G1 [Fr1 [F1 [Ns1 Hres]]]]]]]]. rewrite Es. cbn [fst snd tt_funcs tt_frames tt_ns].
+    split; [|split; [rewrite app_length; cbn; lia | split; [destruct G1; constructor; cbn [tt_strings tt_res_lib tt_funcs tt_ns]; rewrite ?app_length; lia | auto]]].
+    constructor; cbn [tt_strings tt_res_lib tt_res_name tt_funcs tt_func_res tt_frames tt_frame_func tt_ns tt_ns_name].
+    + exact (w_res_len n t1 W1).
+    + rewrite !app_length, (w_func_len n t1 W1). reflexivity.
+    + exact (w_frame_len n t1 W1).
+    + exact (w_ns_len n t1 W1).
+    + exact (w_res_lib n t1 W1).
+    + exact (w_res_name n t1 W1).
+    + intros x Hin. apply in_app_or in Hin. destruct Hin as [Hin|[<-|[]]]; [exact (w_func_name n t1 W1 x Hin) | destruct G1; lia].
+    + intros r Hin. apply in_app_or in Hin. destruct Hin as [Hin|[Hx|[]]]; [exact (w_func_res n t1 W1 r Hin) | apply Hres; exact Hx].
+    + exact (w_frame_name n t1 W1).
+    + intros f Hin. pose proof (w_frame_func n t1 W1 f Hin). rewrite app_length. lia.
+    + exact (w_ns_lib n t1 W1).
+    + exact (w_ns_name n t1 W1).
+    + exact (w_frame_ns n t1 W1).
 Qed.
 
-Lemma frame_for_wf n t k libname : tt_wf n t -> fst k < length (tt_strings t) -> (forall l r, snd k = Some (l, r) -> l < n) ->
+Lemma frame_for_wf n t k libname : tt_wf n t -> fst k < length (tt_strings t) ->
+  (forall l r ns, snd k = Some (l, r, ns) -> l < n) -> (forall l r i, snd k = Some (l, r, Some i) -> i < length (tt_ns t)) ->
   tt_wf n (snd (frame_for t k libname)) /\ fst (frame_for t k libname) < length (tt_frames (snd (frame_for t k libname))).
 Proof.
-  intros W Hk Hl. unfold frame_for. destruct (index_of fkey_eqb k (tt_frames t)) as [i|] eqn:E.
+  intros W Hk Hl Hns. unfold frame_for. destruct (index_of fkey_eqb k (tt_frames t)) as [i|] eqn:E.
   - cbn [fst snd]. split; [exact W | eapply index_of_lt; [apply fkey_eqb_spec | exact E]].
-  - destruct (func_for t (fst k, option_map fst (snd k)) libname) as [f t1] eqn:E1.
-    assert (Hl' : forall l, snd (fst k, option_map fst (snd k)) = Some l -> l < n).
-    { intros l H. cbn in H. destruct (snd k) as [[l' r]|] eqn:Ek; cbn in H; [inversion H; subst; eapply Hl; reflexivity | discriminate]. }
-    pose proof (func_for_wf n t (fst k, option_map fst (snd k)) libname W Hk Hl') as [W1 [I1 [L1 [Fr1 _]]]]. rewrite E1 in *. cbn [fst snd] in *.
+  - destruct (func_for t (fst k, option_map (fun x => fst (fst x)) (snd k)) libname) as [f t1] eqn:E1.
+    assert (Hl' : forall l, snd (fst k, option_map (fun x => fst (fst x)) (snd k)) = Some l -> l < n).
+    { intros l H. cbn in H. destruct (snd k) as [[[l' r] ns]|] eqn:Ek; cbn in H; [inversion H; subst; eapply Hl; reflexivity | discriminate]. }
+    pose proof (func_for_wf n t (fst k, option_map (fun x => fst (fst x)) (snd k)) libname W Hk Hl') as [W1 [I1 [G1 [Fr1 Ns1]]]]. rewrite E1 in *. cbn [fst snd] in *.
     cbn [fst snd tt_frames]. split; [|rewrite app_length; cbn; lia].
-    destruct W1 as [A [B [C [D [Ee [F [G [H I]]]]]]]]. unfold tt_wf. cbn [tt_strings tt_res_lib tt_res_name tt_funcs tt_func_res tt_frames tt_frame_func].
-    repeat split; auto.
-    + rewrite !app_length. cbn. lia.
-    + intros x Hin. apply in_app_or in Hin. destruct Hin as [Hin|[<-|[]]]; auto. lia.
-    + intros x Hin. apply in_app_or in Hin. destruct Hin as [Hin|[<-|[]]]; auto.
+    constructor; cbn [tt_strings tt_res_lib tt_res_name tt_funcs tt_func_res tt_frames tt_frame_func tt_ns tt_ns_name].
+    + exact (w_res_len n t1 W1).
+    + exact (w_func_len n t1 W1).
+    + rewrite !app_length, (w_frame_len n t1 W1). reflexivity.
+    + exact (w_ns_len n t1 W1).
+    + exact (w_res_lib n t1 W1).
+    + exact (w_res_name n t1 W1).
+    + exact (w_func_name n t1 W1).
+    + exact (w_func_res n t1 W1).
+    + intros x Hin. apply in_app_or in Hin. destruct Hin as [Hin|[<-|[]]]; [exact (w_frame_name n t1 W1 x Hin) | destruct G1; lia].
+    + intros x Hin. apply in_app_or in Hin. destruct Hin as [Hin|[<-|[]]]; [exact (w_frame_func n t1 W1 x Hin) | exact I1].
+    + exact (w_ns_lib n t1 W1).
+    + exact (w_ns_name n t1 W1).
+    + intros nm l r i Hin. apply in_app_or in Hin. destruct Hin as [Hin|[Hx|[]]]; [exact (w_frame_ns n t1 W1 nm l r i Hin)|].
+      rewrite Ns1. destruct k as [kn ks]. cbn [fst snd] in *. inversion Hx; subst. eapply Hns. reflexivity.
+Qed.
+
+Lemma native_symbol_for_wf n t lib addr symname : tt_wf n t -> lib < n ->
+  let r := native_symbol_for t lib addr symname in
+  tt_wf n (snd r) /\ fst r < length (tt_ns (snd r)) /\ grows t (snd r).
+Proof.
+  intros W Hl. unfold native_symbol_for. destruct (index_of ns_key_eqb (lib, addr) (tt_ns t)) as [i|] eqn:E.
+  - cbn [fst snd]. split; [exact W|]. split; [eapply index_of_lt; [apply ns_key_eqb_spec | exact E] | apply grows_refl].
+  - destruct (intern_string t symname) as [nm t1] eqn:E1.
+    pose proof (intern_string_wf n t symname W) as [W1 [I1 [G1 _]]]. rewrite E1 in *. cbn [fst snd] in *.
+    cbn [fst snd tt_ns]. split; [|split; [rewrite app_length; cbn; lia | destruct G1; constructor; cbn [tt_strings tt_res_lib tt_funcs tt_ns]; rewrite ?app_length; lia]].
+    constructor; cbn [tt_strings tt_res_lib tt_res_name tt_funcs tt_func_res tt_frames tt_frame_func tt_ns tt_ns_name].
+    + exact (w_res_len n t1 W1).
+    + exact (w_func_len n t1 W1).
+    + exact (w_frame_len n t1 W1).
+    + rewrite !app_length, (w_ns_len n t1 W1). reflexivity.
+    + exact (w_res_lib n t1 W1).
+    + exact (w_res_name n t1 W1).
+    + exact (w_func_name n t1 W1).
+    + exact (w_func_res n t1 W1).
+    + exact (w_frame_name n t1 W1).
+    + exact (w_frame_func n t1 W1).
+    + intros k Hin. apply in_app_or in Hin. destruct Hin as [Hin|[<-|[]]]; [exact (w_ns_lib n t1 W1 k Hin) | exact Hl].
+    + intros x Hin. apply in_app_or in Hin. destruct Hin as [Hin|[<-|[]]]; [exact (w_ns_name n t1 W1 x Hin) | exact I1].
+    + intros nm0 l r i Hin. pose proof (w_frame_ns n t1 W1 nm0 l r i Hin). rewrite app_length. lia.
 Qed.
 
 Lemma tt_empty_wf n : tt_wf n tt_empty.
-Proof. unfold tt_wf, tt_empty. cbn. repeat split; auto; intros ? []. Qed.
+Proof. constructor; cbn; auto; intros; contradiction. Qed.
 
 Lemma do_req_wf n t r : tt_wf n t -> req_ok n r -> tt_wf n (do_req t r).
 Proof.
-  intros W Hr. destruct r as [s | name | lib rel hexname libname]; cbn [do_req].
+  intros W Hr. destruct r as [s | name | lib rel hexname libname | lib rel symaddr symname libname]; cbn [do_req].
   - apply intern_string_wf. exact W.
   - destruct (intern_string t name) as [i t1] eqn:E. pose proof (intern_string_wf n t name W) as [W1 [I1 _]]. rewrite E in *. cbn [fst snd] in *.
-    apply frame_for_wf; [exact W1 | exact I1 | intros l r H; discriminate].
+    apply frame_for_wf; [exact W1 | exact I1 | intros l r ns H; discriminate | intros l r i0 H; discriminate].
   - destruct (intern_string t hexname) as [i t1] eqn:E. pose proof (intern_string_wf n t hexname W) as [W1 [I1 _]]. rewrite E in *. cbn [fst snd] in *.
-    apply frame_for_wf; [exact W1 | exact I1 | intros l r H; inversion H; subst; exact Hr].
+    apply frame_for_wf; [exact W1 | exact I1 | intros l r ns H; inversion H; subst; exact Hr | intros l r i0 H; discriminate].
+  - destruct (native_symbol_for t lib symaddr symname) as [ns t1] eqn:E.
+    pose proof (native_symbol_for_wf n t lib symaddr symname W Hr) as [W1 [I1 _]]. rewrite E in *. cbn [fst snd] in *.
+    apply frame_for_wf; [exact W1 | | intros l r x H; inversion H; subst; exact Hr | intros l r i H; inversion H; subst; exact I1].
+    cbn [fst]. apply (w_ns_name n t1 W1). apply nth_In. rewrite (w_ns_len n t1 W1). exact I1.
 Qed.
 
 Theorem run_reqs_wf n rs : Forall (req_ok n) rs -> tt_wf n (run_reqs rs).
